@@ -146,7 +146,8 @@ type c04Req struct {
 	Endpoint string // home list getkey sign health directory
 	Key      string
 	Peer     string
-	TLS      string // identity name or ""
+	TLS      string   // identity name or ""
+	Extra    []string // certificates sent along after the leaf
 	XFF      []string
 	SCC      string // identity name carried in Ssl-Client-Cert, "garbage", or ""
 	Bearer   string
@@ -309,6 +310,14 @@ func c04Run(r *core.Run) {
 			q.Endpoint = core.Pick(t, "endpoint", "sign", "getkey", "list", "home", "sign", "getkey", "health", "directory")
 			q.Key = keyNames[t.Choose(len(keyNames), "keyname")]
 			q.TLS = identNames[t.Choose(len(identNames), "tls-ident")]
+			if q.TLS != "" && t.Chance(1, 4, "extra-chain-certs") {
+				// the leaf alone identifies the caller; what follows it in the
+				// chain is unauthenticated (other people's public certificates)
+				for k := 1 + t.Choose(2, "n-extra"); k > 0; k-- {
+					q.Extra = append(q.Extra, core.Pick(t, "extra-cert", "client-fp-1", "client-fp-2", "ca-1-client-a", "ca-1", "client-unknown-2"))
+				}
+				r.Fault("foreign-certificates-appended-to-chain")
+			}
 			peerTrusted := proxyMode != "none" && t.Chance(1, 3, "via-proxy")
 			viaProxy := false
 			if peerTrusted {
@@ -382,6 +391,9 @@ func c04Run(r *core.Run) {
 			rs := reqSpec{Method: "GET", Peer: q.Peer, Header: http.Header{}, Query: url.Values{}, Timeout: 30 * time.Second}
 			if q.TLS != "" {
 				rs.TLS = pki[q.TLS]
+				for _, x := range q.Extra {
+					rs.TLSExtra = append(rs.TLSExtra, pki[x])
+				}
 			}
 			for _, x := range q.XFF {
 				rs.Header.Add("X-Forwarded-For", x)
